@@ -71,6 +71,28 @@ def _confirm_by_job(pid, viol):
         os.unlink(tmp)
 
 
+def _full_run_signatures(pid, tier, seed):
+    """Signatures seen by a complete single-process run of the check in a fresh interpreter (deterministic job order)."""
+    import subprocess
+    import tempfile
+
+    with tempfile.TemporaryDirectory() as tmp:
+        env = dict(os.environ, VERIF_FULLRUN="1", VERIF_EVIDENCE_DIR=tmp, VERIF_REPLAY_DIR=tmp, VERIF_SEED=str(seed))
+        r = subprocess.run([sys.executable, "-m", "mc.cli", pid, "--tier", tier, "--workers", "1"], capture_output=True, text=True, cwd=VERIF_DIR, env=env)
+    return {l[len("SEEN signature="):].strip() for l in r.stdout.splitlines() if l.startswith("SEEN signature=")}
+
+
+def _confirm_by_full_run(pid, tier, seed, viol):
+    """Last fallback: the violation may need state the implementation carried over from *other jobs* run earlier in the
+    same worker process. A complete single-process run is deterministic; it is made twice, in fresh interpreters."""
+    if os.environ.get("VERIF_FULLRUN"):
+        return False
+    for _ in range(2):
+        if viol["signature"] not in _full_run_signatures(pid, tier, seed):
+            return False
+    return True
+
+
 def main(argv=None):
     ap = argparse.ArgumentParser(prog="check")
     ap.add_argument("prop")
@@ -92,7 +114,12 @@ def main(argv=None):
     if args.replay:
         with open(args.replay) as fh:
             body = json.load(fh)
-        got = _replay_case(mod, core.unjson(body["case"]))
+        case = core.unjson(body["case"])
+        if isinstance(case, dict) and "__full__" in case:
+            sigs = _full_run_signatures(pid, case["__full__"]["tier"], case["__full__"].get("seed", seed))
+            got = [{"signature": body["signature"], "message": "seen again by a complete single-process run"}] if body["signature"] in sigs else []
+        else:
+            got = _replay_case(mod, case)
         if got:
             for g in got:
                 print(f"REPRODUCED signature={g['signature']} :: {g['message']}")
@@ -121,6 +148,11 @@ def main(argv=None):
     if hasattr(mod, "finalize"):
         extra = mod.finalize(merged, args.tier, seed) or {}
 
+    if os.environ.get("VERIF_FULLRUN"):
+        # inner run of _confirm_by_full_run: only say what was seen
+        for sig in sorted(merged.vcount):
+            print(f"SEEN signature={sig}")
+        return 0
     findings = core.load_findings()
     reported, known, unstable = [], [], []
     seen_sig = set()
@@ -132,6 +164,10 @@ def main(argv=None):
         if not ok and _confirm_by_job(pid, v):
             v = dict(v, case={"__job__": core.jsonable(v["job"])},
                      message=v["message"] + "  [reproduces only after the earlier executions of its job: the implementation carries state between executions; replay re-runs the job]")
+            ok = True
+        if not ok and _confirm_by_full_run(pid, args.tier, seed, v):
+            v = dict(v, case={"__full__": {"tier": args.tier, "seed": seed}},
+                     message=v["message"] + "  [reproduces only in a complete run: the implementation carries state from one job to the next; replay re-runs the check single-process]")
             ok = True
         if not ok:
             unstable.append((v, why))
